@@ -450,9 +450,47 @@ impl<B: Backend> World<B> {
                     self.violate(&["C01", "C04"], "owner_read_value", format!("{:?} returned {:?}, stored value is {:?}", step, got, self.model.value));
                 }
             }
+            Burst(i, nc, ns, nw) => {
+                let Some(k) = self.owner_sel(*i) else { return };
+                if self.uniq.is_some() {
+                    return;
+                }
+                let live_subs = self.model.live_subs();
+                let want = |c: usize, s: usize, w: usize, m: &super::model::Model| (m.owners + c, live_subs + s, m.owners + c + live_subs + s, m.weaks + w);
+                let (got, up, got_after) = {
+                    let o = self.shared[k].as_ref().unwrap();
+                    let clones: Vec<_> = (0..*nc).map(|_| B::s_clone(o)).collect();
+                    let subs: Vec<_> = (0..*ns).map(|_| B::s_subscribe(o)).collect();
+                    let weaks: Vec<_> = (0..*nw).map(|_| B::s_downgrade(o)).collect();
+                    let got = B::s_counts(o);
+                    let up = B::s_downgrade(o);
+                    let upgraded = B::w_upgrade(&up).is_some();
+                    drop(up);
+                    drop(clones);
+                    drop(subs);
+                    drop(weaks);
+                    (got, upgraded, B::s_counts(o))
+                };
+                if self.counts {
+                    let w1 = want(*nc as usize, *ns as usize, *nw as usize, &self.model);
+                    if got != w1 {
+                        self.violate(&["C19"], "handle_counts", format!("with {nc} more clones, {ns} more subscribers and {nw} more weak references alive: (observable_count, subscriber_count, strong_count, weak_count) = {:?}, live = {:?}", got, w1));
+                        return;
+                    }
+                    let w2 = want(0, 0, 0, &self.model);
+                    if got_after != w2 {
+                        self.violate(&["C19"], "handle_counts", format!("after {nc} clones, {ns} subscribers and {nw} weak references were created and dropped again: counts = {:?}, live = {:?}", got_after, w2));
+                        return;
+                    }
+                }
+                if !up {
+                    self.violate(&["C03"], "upgrade_result", format!("WeakObservable::upgrade returned None while {} owner(s) exist", self.model.owners as u64 + *nc as u64));
+                    return;
+                }
+            }
             CloneOwner(i) => {
                 let Some(k) = self.owner_sel(*i) else { return };
-                if self.shared.iter().flatten().count() >= 5 {
+                if self.shared.iter().flatten().count() >= 12 {
                     return;
                 }
                 let c = B::s_clone(self.shared[k].as_ref().unwrap());
@@ -576,6 +614,59 @@ impl<B: Backend> World<B> {
                 let Some(w) = live_idx(&self.weaks, *k) else { return };
                 self.weaks[w] = None;
                 self.model.weaks -= 1;
+            }
+            PollUnderWrite(i, j, f) => {
+                if !B::ASYNC || self.uniq.is_some() {
+                    return;
+                }
+                let Some(k) = self.owner_sel(*i) else { return };
+                let Some(j) = live_idx(&self.subs, *j) else { return };
+                if self.subs[j].as_ref().unwrap().done {
+                    return;
+                }
+                let kind = match *f % 3 {
+                    0 => PollKind::Next,
+                    1 => PollKind::Stream,
+                    _ => PollKind::NextRef,
+                };
+                let (flag, wk) = wake::fresh();
+                let mut cx = Context::from_waker(&wk);
+                let want = {
+                    let subs = self.model.live_subs();
+                    (self.model.owners, subs, self.model.owners + subs, self.model.weaks)
+                };
+                let has_news = self.model.clone().poll(self.subs[j].as_ref().unwrap().mj) != Exp::Pending;
+                let st = self.subs[j].as_mut().unwrap();
+                st.polls += 1;
+                st.ever_polled = true;
+                self.sim_steps += 1;
+                let r = catch_unwind(AssertUnwindSafe(|| B::s_poll_under_write(self.shared[k].as_ref().unwrap(), &mut st.sub, kind, &mut cx)));
+                let Ok(r) = r else {
+                    self.violate(&["C01"], "poll_panicked", format!("poll of subscriber {j} under a write guard panicked"));
+                    return;
+                };
+                let Some((r, held, after)) = r else {
+                    self.violate(&["C16"], "guard_exclusion", "try_write failed although no guard is alive and no call is in flight".into());
+                    return;
+                };
+                self.counters.inc("fault.F9_subscriber_polled_under_write_guard");
+                self.faults += 1;
+                if !matches!(r, Poll::Pending) {
+                    self.violate(&["C16"], "guard_exclusion", format!("subscriber {j} polled while a write guard is alive did not report Pending"));
+                    return;
+                }
+                st.armed = Some(flag.clone());
+                st.last_ready = false;
+                if self.counts && (held != want || after != want) {
+                    self.violate(&["C19"], "handle_counts", format!("subscriber {j} polled while a write guard is alive: counts under the guard {:?}, after its release {:?}, live (clones, subscribers, sum, weak refs) = {:?}", held, after, want));
+                    return;
+                }
+                if has_news && !flag.is_woken() {
+                    self.violate(&["C16"], "not_woken_after_guard_release", format!("subscriber {j} was polled while a write guard was alive (Pending) and has an update to deliver, but the release of the guard did not wake it"));
+                    return;
+                }
+                // let the queued acquisition run (known finding KF-D11: until then it may hold a read permit)
+                self.poll_sub(j, kind);
             }
             PollNext(j) | PollStream(j) | PollNextRef(j) => {
                 let Some(j) = live_idx(&self.subs, *j) else { return };
